@@ -722,6 +722,7 @@ def Ctx.snapIO (c : Ctx) (conBefore : Nat) (o : Obs) : Obs :=
 
 inductive Op where
   | call (fname : String) (args : List Arg)
+  | calls (fname : String) (texts : List String)   -- `hawk_rtx_callwith*strarr`: the API makes the argument values
   | loop
   | exec
   | setgbl (n : Nat) (a : Arg)
@@ -756,6 +757,18 @@ def stepCtx (p : Prog) (k : Cache) (c : Ctx) : Op → Ctx × Cache × Obs
     let c3 := match r with | some v => c2.refdown v | none => c2
     let c4 := dropTmps c3 c3.tmps
     (c4, k1, c4.snapIO n0 o)
+  | .calls fname texts =>
+    -- `hawk_rtx_callwithbcstrarr` and its three siblings: string values are made for the call (referenced
+    -- once each) and released by the API itself before it returns; the caller only gets the result
+    let n0 := c.console.length
+    let (c1, vs) := mkArgs c (texts.map Arg.tmp)
+    let (c2, k1, r) := callByName p c1 k fname vs
+    let c2a := dropTmps c2 c2.tmps
+    let o : Obs := { tag := "calls", failed := r.isNone,
+                     ret := match r with | some v => showVal c2a.heap v | none => "NULL",
+                     rc := match r with | some v => c2a.heap.rcOf v | none => 0 }
+    let c3 := match r with | some v => c2a.refdown v | none => c2a
+    (c3, k1, c3.snapIO n0 o)
   | .loop =>
     let n0 := c.console.length
     let (c2, k1, r) := loop p c k
